@@ -33,6 +33,22 @@ EXC_CLASSES = {
 }
 
 
+def make_exc(name, what):
+    """Exception instance for a fault directive.  'Class:ERRNO' builds an instance that carries an errno
+    (OSError(errno.EINTR, ...)), as the operating system's own errors do."""
+    import errno as _errno
+    import os as _os
+    if ':' in name:
+        cname, ename = name.split(':', 1)
+        cls = EXC_CLASSES[cname]
+        code = getattr(_errno, ename)
+        return cls(code, _os.strerror(code))
+    cls = EXC_CLASSES[name]
+    if cls is serial.serialutil.PortNotOpenError:
+        return cls()
+    return cls("simulated %s on %s" % (name, what))
+
+
 class SimHang(BaseException):
     """The code under test blocked for ever (infinite timeout, nothing in flight)
     or exceeded the I/O cap of a run."""
@@ -168,13 +184,12 @@ class World:
                 self.log('io', handle.port, kind, 'raise', f['exc'])
                 if rec is not None:
                     rec['faults_fired'].append(['raise', kind, f['exc'], self.io_ord])
-                if self.lose_inflight_on_raise and link is not None:
+                # a link that glitches loses what was in flight; an interrupted or would-block call (an
+                # exception that carries EINTR / EAGAIN) loses nothing - the data is simply still on its way
+                if self.lose_inflight_on_raise and link is not None and ':' not in f['exc']:
                     link.rx.clear()
                     link.last_arrival = self.now
-                cls = EXC_CLASSES[f['exc']]
-                if cls is serial.serialutil.PortNotOpenError:
-                    raise cls()
-                raise cls("simulated %s on %s" % (f['exc'], kind))
+                raise make_exc(f['exc'], kind)
             if k == 'unplug':
                 self.fired['unplug'] += 1
                 if rec is not None:
@@ -267,8 +282,12 @@ class World:
                 if d:
                     self.fired['delay'] += 1
                 out.append((ln, d, j))
+            instant = self.scn['world'].get('reply_latency') == 'instant'
             for data_j, d, tag in out:
-                arrival = t_prev + d * T_eff + T_eff // 2
+                # a prompt line normally lands half a timeout after the write; with 'instant' latency it is
+                # already in the receive buffer when write() returns (a fast device, a slow host)
+                base = 0 if (instant and d == 0) else T_eff // 2
+                arrival = t_prev + d * T_eff + base
                 if arrival < link.last_arrival:
                     arrival = link.last_arrival
                 link.rx.append([arrival, data_j])
@@ -536,10 +555,35 @@ class Seams:
         self.world = world
         self.saved = None
 
+    EPOCH = 1700000000.0          # virtual wall clock at the start of every scenario
+
+    def _patch_time(self):
+        import time as _time
+        w = self.world
+        self.saved_time = {n: getattr(_time, n) for n in ('time', 'monotonic', 'perf_counter', 'time_ns',
+                                                           'monotonic_ns', 'perf_counter_ns', 'sleep')}
+        _time.time = lambda: self.EPOCH + w.now / 1e6
+        _time.monotonic = lambda: 1000.0 + w.now / 1e6
+        _time.perf_counter = lambda: 1000.0 + w.now / 1e6
+        _time.time_ns = lambda: int(self.EPOCH * 1e9) + w.now * 1000
+        _time.monotonic_ns = lambda: 1000 * 10 ** 9 + w.now * 1000
+        _time.perf_counter_ns = lambda: 1000 * 10 ** 9 + w.now * 1000
+
+        def _sleep(d):
+            w.now += max(0, int(round(float(d) * US)))
+            w.log('sleep', float(d))
+        _time.sleep = _sleep
+
+    def _unpatch_time(self):
+        import time as _time
+        for n, f in self.saved_time.items():
+            setattr(_time, n, f)
+
     def __enter__(self):
         from plotink import ebb_serial, ebb3_serial
         self.saved = (serial.Serial, ebb_serial.comports, ebb3_serial.comports,
                       _list_ports.comports, World.current)
+        self._patch_time()          # the code under test reads no clock today; if it ever does, it reads ours
         w = self.world
         World.current = w
         serial.Serial = SimSerial
@@ -552,4 +596,5 @@ class Seams:
         from plotink import ebb_serial, ebb3_serial
         (serial.Serial, ebb_serial.comports, ebb3_serial.comports,
          _list_ports.comports, World.current) = self.saved
+        self._unpatch_time()
         return False
